@@ -21,9 +21,10 @@
 
   Tie to the code: `harness/props/c13.py thread_cases` (loop program `ab` of harness/sched.py) — every run is compared
   with this model on the executed step log, chunks, results and flags, and judged by the oracle (`flags.shut`).
-  Not covered by the model (oracle only, counted): a sender that gets the lock right AFTER the loop has shut the socket
-  and before `_sock = None` / `closed = True` are stored — its `sendall` fails on the closed socket (TransportFail); the
-  model's `write1` has no such failure.  The socket is shut in those runs too (the oracle checks it).
+  A sender that gets the lock right AFTER the loop has shut the socket and before `_sock = None` / `closed = True` are
+  stored finds a dead socket: its `sendall` fails (TransportFail), in the model as in the code (`failWrite` on `sockShut`;
+  `Properties/C11_Dead.lean`: `wire_frozen_after_shut`, `send_after_shut_fails`); those runs are compared with the model
+  like all others (family `abandon-window`).
 -/
 import Lomond.Proofs.ThreadsPre
 
